@@ -223,6 +223,16 @@ func runC05(w *World, r *Report, tier string) {
 	}
 	r.Floor("R4", 4)
 
+	c05WebsocketReader(w, r)
+	// ---- R7 (continued): optional members of received elements
+	for _, mi := range w.optionalMemberInvokes(w.LibFuncs()) {
+		owner := w.ownerKey(mi.fn)
+		if strings.HasPrefix(owner, "xmpp.(*Session).") || owner == "xmpp.NewSession" || owner == "xmpp.authPlain" || owner == "xmpp.authSASL" || strings.HasPrefix(owner, "xmpp.(*Component).Resume") {
+			continue // negotiation: C03.R6
+		}
+		r.Check(mi.guarded, "R7", fmt.Sprintf("%s→%s.%s#nil-guard", owner, mi.field, mi.call.Call.Method.Name()), w.ipos(mi.call), "a method is called on the "+mi.field+" member of a received element without a nil test: an element that lacks that child makes the receiving goroutine panic", "behind a nil test")
+	}
+
 	// ---- R5 io.Reader contract
 	nRead := 0
 	for _, f := range w.LibFuncs() {
@@ -505,4 +515,104 @@ func storesToReceiver(w *World, fn *ssa.Function, seen map[*ssa.Function]bool) b
 		}
 	})
 	return found
+}
+
+// c05WebsocketReader — R8: the goroutine that feeds the websocket transport's queue ends only when the connection
+// fails. The end of one frame (io.EOF from reading the frame's reader) is not the end of the stream: a return after the
+// frame read must lie behind `err != io.EOF`.
+func c05WebsocketReader(w *World, r *Report) {
+	r.Rule("R8", "the websocket reader goroutine does not stop at the end of a frame: every return after the frame-level read lies behind a test that the read's error is not io.EOF (an empty frame, or the normal end of a frame, must not end delivery)")
+	sr := w.FuncOpt("xmpp.(WebsocketTransport).startReader")
+	if sr == nil {
+		sr = w.FuncOpt("xmpp.(*WebsocketTransport).startReader")
+	}
+	if sr == nil {
+		r.Undecided("R8", "xmpp.WebsocketTransport.startReader", "-", "the function that starts the websocket reader was not found")
+		return
+	}
+	var started []*ssa.Function
+	allInstrsH(sr, func(in ssa.Instruction) {
+		g, ok := in.(*ssa.Go)
+		if !ok {
+			return
+		}
+		if callee := g.Call.StaticCallee(); callee != nil && callee.Blocks != nil {
+			started = append(started, callee)
+		}
+	})
+	isEOF := func(v ssa.Value) bool {
+		u, ok := v.(*ssa.UnOp)
+		if !ok || u.Op != token.MUL {
+			return false
+		}
+		g, ok := u.X.(*ssa.Global)
+		return ok && g.Name() == "EOF" && g.Pkg != nil && g.Pkg.Pkg.Path() == "io"
+	}
+	n := 0
+	for _, fn := range started {
+		allInstrsH(fn, func(in ssa.Instruction) {
+			c, ok := in.(*ssa.Call)
+			if !ok {
+				return
+			}
+			k := w.callKey(c)
+			frameRead := k == "io.ReadFull" || k == "io.ReadAll" || k == "io.ReadAtLeast" || k == "io/ioutil.ReadAll" || (c.Call.IsInvoke() && c.Call.Method.Name() == "Read" && k == "io.Reader.Read")
+			if !frameRead {
+				return
+			}
+			ev := errResult(c)
+			if ev == nil {
+				return
+			}
+			n++
+			bad := ""
+			nRet := 0
+			// one iteration: until the head of the loop the read lies in is reached again
+			heads := map[*ssa.BasicBlock]bool{}
+			for _, hb := range c.Parent().Blocks {
+				if !hb.Dominates(c.Block()) {
+					continue
+				}
+				for _, pb := range hb.Preds {
+					if hb.Dominates(pb) {
+						heads[hb] = true
+					}
+				}
+			}
+			isC := func(x ssa.Instruction) bool { return x == in || (heads[x.Block()] && x == x.Block().Instrs[0]) }
+			walkPaths(after(c), isC, nil, 5000, func(path []ssa.Instruction, end pathEnd) {
+				rt, isRet := path[len(path)-1].(*ssa.Return)
+				if !isRet {
+					return
+				}
+				nRet++
+				notEOF := pathAsserts(path, func(cv ssa.Value, truth bool) bool {
+					bo, ok := cv.(*ssa.BinOp)
+					if !ok || (bo.Op != token.EQL && bo.Op != token.NEQ) {
+						return false
+					}
+					var other ssa.Value
+					switch {
+					case isEOF(bo.X):
+						other = bo.Y
+					case isEOF(bo.Y):
+						other = bo.X
+					default:
+						return false
+					}
+					if !resolvedEq(other, ev) {
+						return false
+					}
+					return (bo.Op == token.NEQ) == truth
+				})
+				if !notEOF {
+					bad = "the reader goroutine ends (return at " + w.ipos(rt) + ") after a frame read whose error may be io.EOF — the end of a frame, or an empty frame: nothing that arrives afterwards is delivered, and nobody is told"
+				}
+			})
+			r.Check(bad == "", "R8", fmt.Sprintf("%s→%s#%d", w.funcKey(fn), k, n), w.ipos(c), bad, fmt.Sprintf("%d return(s) after the frame read, each behind err != io.EOF", nRet))
+		})
+	}
+	if n == 0 {
+		r.Undecided("R8", "xmpp.WebsocketTransport.startReader#frame-read", w.pos(sr.Pos()), "no frame-level read found in the reader goroutine")
+	}
 }
